@@ -4,11 +4,61 @@ import os, re, subprocess
 PREFIX_BYTES = [0x66, 0x67, 0xf0, 0xf2, 0xf3, 0x2e, 0x3e, 0x48, 0x49, 0x4c, 0x40, 0x41, 0x0f, 0xc4, 0xc5, 0x62, 0x70, 0x7f, 0xe8, 0xe9, 0xeb, 0xff]
 
 
-def random_bytes(g, n):
-    out = []
-    for _ in range(n):
-        out.append(g.pick(PREFIX_BYTES) if g.chance(0.3) else g.int(0, 255))
+def _modrm_tail(g, force_sib=False):
+    """ModRM (+ SIB + displacement) bytes of one memory or register operand"""
+    mod = g.pick([0, 1, 2, 3, 0, 1])
+    reg, rm = g.int(0, 7), (4 if force_sib or g.chance(0.5) else g.int(0, 7))
+    if mod == 3 and force_sib:
+        mod = g.pick([0, 1, 2])
+    out = [(mod << 6) | (reg << 3) | rm]
+    base = None
+    if mod != 3 and rm == 4:
+        sib = g.int(0, 255)
+        base = sib & 7
+        out.append(sib)
+    if mod == 1:
+        out.append(g.pick([0x08, 0xf8, 0x40, 0x80, g.int(0, 255)]))
+    elif mod == 2 or (mod == 0 and (rm == 5 or base == 5)):
+        out += [g.int(0, 255), g.int(0, 255), g.pick([0, 0, 0xff, g.int(0, 255)]), g.pick([0, 0xff])]
     return out
+
+
+LEGACY_OPS = [[0x01], [0x03], [0x29], [0x2b], [0x31], [0x39], [0x3b], [0x63], [0x85], [0x87], [0x89], [0x8b], [0x8d],
+              [0x0f, 0xaf], [0x0f, 0xb6], [0x0f, 0xbe], [0x0f, 0x10], [0x0f, 0x11], [0x0f, 0x28], [0x0f, 0x58], [0xff], [0xf7], [0xd9], [0xdd]]
+VEC_OPS = [0x10, 0x11, 0x14, 0x28, 0x29, 0x51, 0x54, 0x58, 0x59, 0x5c, 0x5e, 0x6f, 0x7f, 0xc6, 0x92, 0x93, 0x18, 0x19]
+
+
+def instruction_bytes(g):
+    """bytes shaped like one x86-64 instruction: legacy, VEX or EVEX (masks, zeroing, broadcast) with ModRM/SIB"""
+    k = g.int(0, 9)
+    if k < 4:
+        pre = [g.pick([0x48, 0x49, 0x4c, 0x4d, 0x41, 0x44, 0x66])] if g.chance(0.6) else []
+        return pre + list(g.pick(LEGACY_OPS)) + _modrm_tail(g)
+    if k < 6:
+        if g.chance(0.5):
+            head = [0xc5, g.int(0, 255)]
+        else:
+            head = [0xc4, (g.int(0, 7) << 5) | g.pick([1, 2, 3]), g.int(0, 255)]
+        return head + [g.pick(VEC_OPS)] + _modrm_tail(g)
+    # EVEX: 62 P0 P1 P2 opcode modrm ...; P2 carries z, L'L, b and the mask register aaa
+    p0 = (g.int(0, 15) << 4) | g.pick([1, 1, 1, 1, 2, 3])
+    p1 = g.int(0, 255) | 0x04
+    p2 = (g.int(0, 1) << 7) | (g.int(0, 3) << 5) | (g.int(0, 1) << 4) | (g.int(0, 1) << 3) | g.pick([0, 1, 2, 7, g.int(0, 7)])
+    return [0x62, p0, p1, p2, g.pick(VEC_OPS)] + _modrm_tail(g, force_sib=g.chance(0.6))
+
+
+def random_bytes(g, n):
+    """code bytes: a mix of uniformly random bytes, common prefixes, instruction-shaped groups and zero runs"""
+    out = []
+    while len(out) < n:
+        k = g.int(0, 99)
+        if k < 30:
+            out.append(g.pick(PREFIX_BYTES) if g.chance(0.3) else g.int(0, 255))
+        elif k < 94:
+            out += instruction_bytes(g)
+        else:
+            out += [0] * g.int(2, 12)
+    return out[:n] if g.chance(0.5) else out
 
 
 def assemble(scratch, sections, name="obj"):
